@@ -234,9 +234,9 @@ End Scan.
 Lemma find_ev_some l k a i e : find_ev l k a i = Some e ->
   In e l /\ ek e = k /\ ea e = a /\ eop e = i.
 Proof.
-  unfold find_ev. intros H. apply find_some in H. destruct H as [Hin H].
-  apply andb_prop in H. destruct H as [H H3]. apply andb_prop in H. destruct H as [H1 H2].
-  apply Z.eqb_eq in H1. apply Nat.eqb_eq in H2. apply Nat.eqb_eq in H3. auto.
+  unfold find_ev. intros H. apply find_some in H. destruct H as [Hin H]. unfold ev_is in H.
+  destruct (ek e =? k)%Z eqn:H1; [|discriminate]. destruct (Nat.eqb (ea e) a) eqn:H2; [|discriminate].
+  apply Z.eqb_eq in H1. apply Nat.eqb_eq in H2. apply Nat.eqb_eq in H. auto.
 Qed.
 
 (* [may_share c e x]: the execution x (an fs event) had ended before the call of e returned; it is
@@ -286,7 +286,7 @@ Proof.
   apply existsb_exists in H. destruct H as (x & Hin & Hx).
   unfold execs in Hin. apply filter_In in Hin. destruct Hin as [Hin Hk]. apply Z.eqb_eq in Hk.
   destruct (op_at c (ea x) (eop x)) as [o'|] eqn:Eo'; [|discriminate].
-  apply andb_prop in Hx. destruct Hx as [Hs Hx]. exists x, o'. repeat split; auto.
+  destruct (same_key o o') eqn:Hs; [|discriminate]. exists x, o'. repeat split; auto.
   - apply orb_prop in Hx. destruct Hx as [Hx|Hx].
     + apply andb_prop in Hx. tauto.
     + unfold panic_share in Hx. apply andb_prop in Hx. tauto.
